@@ -37,7 +37,15 @@ class AdmInterp(OrderInterp):
         super().__init__(prog, prog.module(BM))
         self.ctx: dict[str, Any] = {}
         self.manager = prog.cls(f"{BM}:{MANAGER}")
-        self.source = bounds_source(prog)
+        self.source = bounds_source_or_none(prog)   # None: the record is built inside the request check
+
+    def call(self, e: ast.Call) -> Any:
+        if self.source is None and _callee_last(e) == "PowerBounds" and self.module_stack[-1].name == BM:
+            # the aggregation over the component data is not order-only code: its result is the symbolic
+            # record (that it aggregates the pairs parameter is C17.AGG / C02.ADM's term extraction)
+            self.log.append(("get_bounds", True))
+            return self.ctx["bounds"]
+        return super().call(e)
 
     def unknown_name(self, ident: str, node: ast.AST) -> Any:
         if ident == "is_close_to_zero":
@@ -69,7 +77,7 @@ class AdmInterp(OrderInterp):
     def obj_method(self, base: Obj, attr: str, node: ast.AST) -> Any:
         if base.cls == MANAGER:
             m = self.prog.resolve_method(self.manager, attr)
-            if m is not None and m.node is self.source.node:
+            if m is not None and self.source is not None and m.node is self.source.node:
                 return ("builtin", "get_bounds")
             if m is None or not attr.startswith("_"):
                 raise AnalysisError(f"attribute self.{attr} not modelled")
@@ -109,42 +117,93 @@ class AdmInterp(OrderInterp):
         return super().apply(fn, pos, kw, node)
 
 
-def bounds_source(prog: Program) -> FuncInfo:
-    """The function playing the role of `_get_bounds`: the private BatteryManager method reachable from
-    _check_request (through private methods) whose result is a freshly built PowerBounds record — the
-    enforced bounds aggregated from the component data.  Bound by that role; the name is only used to
-    break a tie.  No such function: AnalysisError (the role has vanished)."""
-    from ..engine.sympath import SymUnsupported, sym_paths
+def _callee_last(c: ast.Call) -> str:
+    return ast.unparse(c.func).split(".")[-1]
 
-    manager = prog.cls(f"{BM}:{MANAGER}")
-    start = prog.func(f"{BM}:{MANAGER}._check_request")
-    seen: dict[str, FuncInfo] = {}
+
+def reach(prog: Program, start: FuncInfo, depth: int = 3) -> list[FuncInfo]:
+    """`start` and the private methods of its class it calls (through `self.` / `cls.` / the class name),
+    transitively up to `depth` calls deep."""
+    cls = start.cls
+    out = [start]
+    if cls is None:
+        return out
     frontier = [start]
-    for _ in range(4):
+    for _ in range(depth):
         nxt = []
         for f in frontier:
             for c in ast.walk(f.node):
                 if isinstance(c, ast.Call) and isinstance(c.func, ast.Attribute) and isinstance(c.func.value, ast.Name) \
-                        and c.func.value.id in ("self", "cls", MANAGER) and c.func.attr.startswith("_"):
-                    m = prog.resolve_method(manager, c.func.attr)
-                    if m is not None and m.name not in seen and m.name != start.name:
-                        seen[m.name] = m
+                        and c.func.value.id in ("self", "cls", cls.name) and c.func.attr.startswith("_"):
+                    m = prog.resolve_method(cls, c.func.attr)
+                    if m is not None and all(m.node is not o.node for o in out):
+                        out.append(m)
                         nxt.append(m)
         frontier = nxt
-    cands = []
-    for m in seen.values():
+    return out
+
+
+def method_by_role(prog: Program, cls_qual: str, hint: str, pred: Callable[[FuncInfo], bool], what: str) -> FuncInfo:
+    """The method of a class playing a role: the one called `hint` if it (still) satisfies `pred`, else the
+    unique outermost method satisfying it (outermost: not called by another candidate).  None or several:
+    AnalysisError — the role has vanished or is ambiguous."""
+    cls = prog.cls(cls_qual)
+    m = cls.methods.get(hint)
+    if m is not None and pred(m):
+        return m
+    cands = [m for m in cls.methods.values() if pred(m)]
+    outer = [m for m in cands if not any(o is not m and any(r.node is m.node for r in reach(prog, o)[1:]) for o in cands)]
+    if len(outer) != 1:
+        raise AnalysisError(f"{cls_qual}: no unique method plays the role of `{hint}` ({what}); "
+                            f"candidates: {sorted(m.name for m in outer or cands)}")
+    return outer[0]
+
+
+def bounds_source(prog: Program) -> FuncInfo:
+    """The function playing the role of `_get_bounds`: the (outermost) private BatteryManager method whose
+    every result is a freshly built PowerBounds record — the enforced bounds aggregated from the
+    component data.  Bound by that role; the name is only a hint."""
+    from ..engine.sympath import SymUnsupported, sym_paths
+
+    def builds_bounds(m: FuncInfo) -> bool:
+        if not m.name.startswith("_") or m.name.startswith("__"):
+            return False
         try:
             rets = [p.ret for p in sym_paths(m.node) if p.exit == "return"]
         except SymUnsupported:
-            continue
-        if rets and all(isinstance(r, ast.Call) and ast.unparse(r.func).split(".")[-1] == "PowerBounds" for r in rets):
-            cands.append(m)
-    if len(cands) > 1:
-        cands = [m for m in cands if m.name == GET_BOUNDS] or cands
-    if len(cands) != 1:
-        raise AnalysisError(f"{start.qual}: the method aggregating the enforced PowerBounds from the component "
-                            f"data is not identified ({sorted(m.name for m in cands)})")
-    return cands[0]
+            return False
+        return bool(rets) and all(isinstance(r, ast.Call) and _callee_last(r) == "PowerBounds" for r in rets)
+
+    return method_by_role(prog, f"{BM}:{MANAGER}", GET_BOUNDS, builds_bounds,
+                          "aggregates the enforced PowerBounds from the component data")
+
+
+def bounds_source_or_none(prog: Program) -> FuncInfo | None:
+    """bounds_source(), or None when no method plays the role because the aggregation was inlined into the
+    request check (which then builds the PowerBounds record itself)."""
+    try:
+        return bounds_source(prog)
+    except AnalysisError:
+        return None
+
+
+def check_request_fn(prog: Program) -> FuncInfo:
+    """The function playing the role of `_check_request`: the (outermost) BatteryManager method
+    (self, request, pairs) from which an `OutOfBounds(...)` answer is built and the bounds source is
+    called (or, when that helper was inlined, in which the PowerBounds record is built)."""
+    src = bounds_source_or_none(prog)
+
+    def checks(m: FuncInfo) -> bool:
+        if len(m.params) != 3:
+            return False
+        fs = reach(prog, m)
+        calls = [c for f in fs for c in ast.walk(f.node) if isinstance(c, ast.Call)]
+        has_bounds = any(f.node is src.node for f in fs[1:]) if src is not None else any(
+            _callee_last(c) == "PowerBounds" for c in calls)
+        return has_bounds and any(_callee_last(c) == "OutOfBounds" for c in calls)
+
+    return method_by_role(prog, f"{BM}:{MANAGER}", "_check_request", checks,
+                          "answers OutOfBounds for a request checked against the aggregated bounds")
 
 
 def check_request_tail(prog: Program) -> tuple[FuncInfo, ast.FunctionDef]:
@@ -152,7 +211,7 @@ def check_request_tail(prog: Program) -> tuple[FuncInfo, ast.FunctionDef]:
 
     The interpreted function is the complete body of _check_request (falling off its end is the
     accepting `return None`); the name is historical."""
-    fn = prog.func(f"{BM}:{MANAGER}._check_request")
+    fn = check_request_fn(prog)
     if len(fn.params) != 3:
         raise AnalysisError(f"{fn.qual}: expected (self, request, pairs_data), found {fn.params}")
     f = ast.FunctionDef(
@@ -207,5 +266,5 @@ def explore_admission(prog: Program, post: Callable[[AdmInterp, Any, dict[str, A
 
     outs = it.explore(body, make_args, lambda res: post(it, res, it.ctx))
     if not any(reached_bounds(o) for o in outs):
-        raise AnalysisError(f"{fn.qual}: no abstract path reads self.{it.source.name}(...)")
+        raise AnalysisError(f"{fn.qual}: no abstract path reads the enforced bounds")
     return fn, outs
